@@ -2,10 +2,12 @@ package harness
 
 import (
 	"encoding/json"
+	"flag"
 	"fmt"
 	"os"
 	"path/filepath"
 	"sort"
+	"strconv"
 	"strings"
 	"testing"
 
@@ -76,6 +78,24 @@ func replayHistory(c *kvh.Case, raw []byte) *kvh.Fail {
 	}
 	return r.Finish()
 }
+
+// scaleRapidChecks multiplies -rapid.checks for the rapid.Check calls made
+// until the returned function is called (cheap properties run more cases).
+func scaleRapidChecks(factor int) func() {
+	f := flag.Lookup("rapid.checks")
+	if f == nil {
+		return func() {}
+	}
+	old := f.Value.String()
+	n, err := strconv.Atoi(old)
+	if err != nil {
+		return func() {}
+	}
+	_ = flag.Set("rapid.checks", strconv.Itoa(n*factor))
+	return func() { _ = flag.Set("rapid.checks", old) }
+}
+
+func jsonUnmarshal(raw []byte, v any) error { return json.Unmarshal(raw, v) }
 
 // TestReplay re-executes saved cases without any generator: VERIF_REPLAY names
 // a JSON case file or a directory of them.
